@@ -1,0 +1,14 @@
+//go:build verif
+
+package x509
+
+// Verification hooks for hostname matching (add-only, build tag verif).
+
+// VerifMatchHostnames exposes matchHostnames.
+func VerifMatchHostnames(pattern, host string) bool { return matchHostnames(pattern, host) }
+
+// VerifToLowerCaseASCII exposes toLowerCaseASCII.
+func VerifToLowerCaseASCII(in string) string { return toLowerCaseASCII(in) }
+
+// VerifHasSANExtension exposes hasSANExtension.
+func VerifHasSANExtension(c *Certificate) bool { return c.hasSANExtension() }
